@@ -57,9 +57,39 @@ func runTree(o *opts) {
 		}
 		ts = append(ts, oneTree(o, rr, s, i, sc, distinct)...)
 	}
+	// a stage file that is itself a tracked output of another stage (a generated pipeline step): after a
+	// link commit it is a link into the cache, and writing it back must not go THROUGH that link
+	for k := 0; k < 2; k++ {
+		base := scenarioDir(o, "tree", 9000+k)
+		p := newProject(o, base, []string{"in", "abs"}[k])
+		p.init()
+		must(os.WriteFile(filepath.Join(p.Root, "model.bin"), r.bytes(50), 0o644))
+		p.writeStage("train.yaml", &StageRec{Out: []Art{{Path: "model.bin"}}})
+		p.writeStage("gen.yaml", &StageRec{Out: []Art{{Path: "train.yaml"}}})
+		if res := p.dud("", "stage", "add", "gen.yaml", "train.yaml"); res.Exit != 0 {
+			must(fmt.Errorf("stage-file-as-artifact setup: %s", res.Stderr))
+		}
+		outside := func(t *Transition, step string) {
+			t.Obs = append(t.Obs, 9)
+			t.Info["scenario"] = 9000 + k
+			t.Info["step"] = step
+			t.Info["stage_file_is_an_artifact"] = true
+			ts = append(ts, t)
+		}
+		t, _ := p.do(Cmd{Kind: "commit"}, nil, want(11, 1, 13), nil, nil)
+		outside(t, "commit (the stage file train.yaml becomes a link into the cache)")
+		os.Remove(filepath.Join(p.Root, "model.bin"))
+		must(os.WriteFile(filepath.Join(p.Root, "model.bin"), r.bytes(60), 0o644))
+		t, _ = p.do(Cmd{Kind: "commit", Targets: []string{"train.yaml"}}, nil, want(11, 1, 13), nil, nil)
+		outside(t, "commit of the stage whose file is a link into the cache")
+		t, _ = p.do(Cmd{Kind: "status"}, nil, want(1, 13), nil, nil)
+		outside(t, "status afterwards")
+		s.count("stage-file-as-artifact")
+		rmrf(base)
+	}
 	s.Cases = len(ts)
 	s.Nontrivial = len(distinct)
-	s.Rule = "one case = one dud command between two observed project states; scenarios = generated tree x artifact kind x strategies x cache placement x invocation dir x target workspace; non-trivial = the tree has >= 2 leaves or a nested directory; distinct by (tree, configuration)"
+	s.Rule = "a stage file tracked as another stage's output (statements only: outside the model); one case = one dud command between two observed project states; scenarios = generated tree x artifact kind x strategies x cache placement x invocation dir x target workspace; non-trivial = the tree has >= 2 leaves or a nested directory; distinct by (tree, configuration)"
 	for _, i := range []int{0, len(ts) / 2} {
 		if i < len(ts) {
 			s.Samples = append(s.Samples, ts[i].Info)
